@@ -342,7 +342,6 @@ func verifRaddrLite(kind int) *net.UDPAddr {
 	}
 }
 
-
 // C04: client addresses that differ only in the IPv6 zone are different clients
 func VH_C04_zoned_clients() {
 	verifResetNet()
